@@ -23,6 +23,7 @@ type CAKeySpec struct {
 	OID      string   // id-CA-ECDH-* for ChipAuthenticationInfo; "" = no ChipAuthenticationInfo
 	Version  int      // 0 means 1
 	KeyID    *int     // optional keyId, used in both infos
+	InfoNoKeyID bool  // keyId only in the public key info (both are OPTIONAL and independent, 9303-11 §9.2.5/9.2.6)
 	ParamID  int      // curve of the key
 	X, Y     *big.Int // public point; if nil it is computed from Priv
 	Priv     []byte   // optional, only used to compute the public point
@@ -142,7 +143,11 @@ func CASecurityInfos(caKeys []CAKeySpec) ([][]byte, error) {
 	var infos [][]byte
 	for i, k := range caKeys {
 		if k.OID != "" {
-			infos = append(infos, ChipAuthenticationInfo(k.OID, k.Version, k.KeyID))
+			infoID := k.KeyID
+			if k.InfoNoKeyID {
+				infoID = nil
+			}
+			infos = append(infos, ChipAuthenticationInfo(k.OID, k.Version, infoID))
 		}
 		if k.OmitKey {
 			continue
